@@ -12,7 +12,7 @@ EXPLANATION = (
     "every graph operation recorded (loop nest, facts that hold, arguments): nodes from self.predicates(), edges head -> body.positive_predicates() (resp. all body predicates restricted to private head and "
     "body), choice heads with private predicate refuse, result (not) is_cyclic_directed; positive_predicates yields only NoSign literals. "
     "is_regular is natural().is_some(). COLLECT: every user-guide collector (placeholders, formulas, input / output predicates) adds every entry of "
-    "its kind unconditionally. FLOW-READ: bypass_tightness is read only inside ensure_program_tightness.")
+    "its kind unconditionally. FLOW-READ: bypass_tightness is read only inside ensure_program_tightness. CLI: --bypass-tightness is a plain presence flag (no default that depends on another option).")
 UNDECIDED = ["exactness of petgraph::algo::is_cyclic_directed (library)", "the definition of regularity itself: decided as tables under C08"]
 ASSUMPTIONS = ["petgraph cycle detection is exact", "derived Hash/Eq on Predicate compare symbol and arity"]
 
